@@ -302,6 +302,12 @@ Definition row_passes (cols : list Z) (ts : list term) (row : list Z) : bool :=
 Definition load_filtered (cols : list Z) (ts : list term) (rows : list (list Z)) : list (list Z) :=
   filter (row_passes cols ts) rows.
 
+(* The draw filter (artifact.py _parse_draw_filters 286-320 + read_hdf(columns=...)): one filter term of the form
+   `draw == n` / `draw = n` / `draw in [n, ...]` does not restrict rows at all (`draw` is no column: the term is dropped
+   by valid_terms) but selects columns: of the stored value columns, those named draw_n for a requested n and `value`. *)
+Definition select_columns (stored : list Z) (request : option (list Z)) : list Z :=
+  match request with None => stored | Some cols => filter (fun c => zmem c cols) stored end.
+
 (* ------------------------------------------------------------------------------------------------------------
    Correspondence.  Stream `ops`: an operation sequence on a real HDF file; after every operation the harness records
    the outcome, artifact.keys, hdf.get_keys(path), the keys of a second Artifact opened on the path and what that
@@ -351,7 +357,12 @@ Definition check_ops (c : ops_case) : bool :=
    artifact with filter terms [ts]; observed: the positions (in the unfiltered load) of the rows returned. *)
 Fixpoint positions_from (n : Z) (p : list Z -> bool) (rows : list (list Z)) : list Z :=
   match rows with [] => [] | r :: rest => if p r then n :: positions_from (n + 1) p rest else positions_from (n + 1) p rest end.
-Definition filt_case := (list Z * list (list Z) * list term * list Z)%type.
+Fixpoint count_zs (x : Z) (l : list Z) : nat :=
+  match l with [] => O | y :: r => if y =? x then S (count_zs x r) else count_zs x r end.
+Definition same_zs (a b : list Z) : bool := forallb (fun x => Nat.eqb (count_zs x a) (count_zs x b)) (a ++ b).
+(* ... plus: the stored value columns, the columns a draw term requests (if there is one), the columns returned *)
+Definition filt_case := (list Z * list (list Z) * list term * list Z * (list Z * option (list Z) * list Z))%type.
 Definition check_filt (c : filt_case) : bool :=
-  let '(cols, rows, ts, observed) := c in
-  zlist_eqb (positions_from 0 (row_passes cols ts) rows) observed.
+  let '(cols, rows, ts, observed, (stored, request, ocols)) := c in
+  zlist_eqb (positions_from 0 (row_passes cols ts) rows) observed &&
+  same_zs (select_columns stored request) ocols.
